@@ -24,7 +24,7 @@ PY = "/venv/bin/python"
 REPO = os.environ.get("PYPLATE_SRC", "/repo")
 SCRATCH = os.path.join(BUILD, "scratch")
 CACHE = os.path.join(BUILD, "cache")
-EVID = os.path.join(VERIF, "evidence")
+EVID = os.environ.get("VERIF_EVIDENCE_DIR", os.path.join(VERIF, "evidence"))      # (redirected when a seeded change is evaluated)
 NCPU = min(16, os.cpu_count() or 4)
 
 REALISTIC = ("18015.3", "1000000")       # W is water (18.0153 g/mol, 1 g/mL), volumes of ~0.1 L
